@@ -43,7 +43,7 @@ def npay_of(ops):
             n += int(f[3])
     return n
 
-def scenario(name, prop, ops, disk=4096, defs=None, timeout=600, extra="", nfiles=2, symbolic=None, group=None):
+def scenario(name, prop, ops, disk=4096, defs=None, timeout=600, extra="", nfiles=2, symbolic=None, group=None, field_sens=None):
     npay = max(1, npay_of(ops))
     text = "#define H4V_PROG %s\n#define NPAY %d\n%s\n#include \"%s\"\n" % (
         ", \\\n  ".join(ops), npay, extra, os.path.join(VERIF, "harness/common/h_interp.c"))
@@ -52,4 +52,4 @@ def scenario(name, prop, ops, disk=4096, defs=None, timeout=600, extra="", nfile
     return H(name, prop, text=text, units=libhdf_units(), models=["memio", "herr", "memloops", "printf"],
              unwind=5000, kind="S", defs=d, timeout=timeout,
              symbolic=symbolic or ("%d payload bytes" % npay), bound="concrete skeleton of %d calls; file <= %d bytes" % (len(ops), disk),
-             group=group or name.rsplit(".", 1)[0], hang_is_violation=True)
+             group=group or name.rsplit(".", 1)[0], hang_is_violation=True, **({"field_sens": field_sens} if field_sens else {}))
